@@ -201,10 +201,11 @@ func (b *Billet) incrementRefAndStore(h util.Uint256, bs []byte) {
 		data, err = b.Store.Get(key)
 		if err == nil {
 			cnt = int32(binary.LittleEndian.Uint32(data[len(data)-4:]))
+			data = bytes.Clone(data) // the slice belongs to the store (and may be being persisted)
 		}
 		cnt++
 		if len(data) == 0 {
-			data = append(bs, 1, 0, 0, 0, 0)
+			data = append(bytes.Clone(bs), 1, 0, 0, 0, 0)
 		}
 		binary.LittleEndian.PutUint32(data[len(data)-4:], uint32(cnt))
 		b.Store.Put(key, data)
